@@ -12,14 +12,20 @@ from .c08 import solve
 def scenario(task):
     nt, d, m, B, ts, dt, degy = task[:7]
     y0_grad = task[7] if len(task) > 7 else True
+    extras_loss = task[8] if len(task) > 8 else False
     grads = []
     fw = []
     for adjoint in (True, False):
         mk = sdes.Maker(symbolic=True, seed=21)
         sde, bm, y0, ys = solve(mk, 'stratonovich', 'reversible_heun', nt, {}, d, m, B, ts, dt, degy=degy, adjoint=adjoint,
-                                adjoint_method='adjoint_reversible_heun' if adjoint else None, y0_grad=y0_grad)
+                                adjoint_method='adjoint_reversible_heun' if adjoint else None, y0_grad=y0_grad, **({'extra': True} if extras_loss else {}))
+        if extras_loss:       # the returned extra solver state (f, g, z) is part of what the caller may differentiate
+            ys, extras = ys
         validate(ys, mk.env, 1e-8)
         loss = e1.weighted_loss(mk, ys)
+        if extras_loss:
+            for nm, x in zip(('lf', 'lg', 'lz'), extras):
+                loss = loss + e1.weighted_loss(mk, x, prefix=nm)
         params = list(sde.parameters())
         # a fixed initial condition (y0 not requiring grad, only the parameters are trained) is a different autograd path
         g = torch.autograd.grad(loss, ([y0] if y0_grad else []) + params, allow_unused=True)
@@ -51,6 +57,7 @@ def tasks_for(tier):
     ts2, ts3 = [0.0, 0.1, 0.2], [0.0, 0.1, 0.2, 0.3]
     T = [(nt, 1, 2, 1, ts2, 0.1, 2) for nt in ('diagonal', 'scalar', 'additive', 'general')]
     T += [('diagonal', 1, 2, 1, ts2, 0.1, 2, False), ('general', 1, 2, 1, ts2, 0.1, 1, False)]
+    T += [('diagonal', 1, 2, 1, ts2, 0.1, 1, True, True), ('general', 1, 2, 1, ts2, 0.1, 1, False, True)]      # loss also on the returned extras
     if tier != 'quick':
         T += [(nt, 2, 2, 2, ts2, 0.1, 1) for nt in ('diagonal', 'scalar', 'additive', 'general')]
         T += [(nt, 1, 2, 1, ts3, 0.1, 1) for nt in ('diagonal', 'general')]
@@ -69,7 +76,7 @@ def run(ctx):
     tasks = tasks_for(ctx.tier)
     tw = 0
     for t, (st_, res) in zip(tasks, pmap(scenario, tasks)):
-        name = f"noise={t[0]} d={t[1]} m={t[2]} B={t[3]} ts={t[4]} deg={t[6]}" + (" y0 without grad" if len(t) > 7 and not t[7] else "")
+        name = f"noise={t[0]} d={t[1]} m={t[2]} B={t[3]} ts={t[4]} deg={t[6]}" + (" y0 without grad" if len(t) > 7 and not t[7] else "") + (" loss on extras" if len(t) > 8 and t[8] else "")
         if st_ != 'ok':
             ctx.inconc(name, str(res)[:600]); continue
         ctx.paths += 1; ctx.queries += res['queries']; ctx.solver_s += res['solver_s']; ctx.validated += 2
@@ -89,13 +96,20 @@ def replay(data):
     task = data['replay']['task']
     nt, d, m, B, ts, dt, degy = task[:7]
     y0_grad = task[7] if len(task) > 7 else True
+    extras_loss = task[8] if len(task) > 8 else False
     out = []
     for adjoint in (True, False):
         mk = sdes.Maker(symbolic=False, seed=21)
         sde, bm, y0, ys = solve(mk, 'stratonovich', 'reversible_heun', nt, {}, d, m, B, ts, dt, degy=degy, adjoint=adjoint,
-                                adjoint_method='adjoint_reversible_heun' if adjoint else None, y0_grad=y0_grad)
+                                adjoint_method='adjoint_reversible_heun' if adjoint else None, y0_grad=y0_grad, **({'extra': True} if extras_loss else {}))
+        extras = ()
+        if extras_loss:
+            ys, extras = ys
         w = mk('lw', tuple(ys.shape), values=0.5 + 0.1 * np.arange(ys.numel()).reshape(tuple(ys.shape)))
-        g = torch.autograd.grad((ys * w).sum(), ([y0] if y0_grad else []) + list(sde.parameters()), allow_unused=True)
+        loss = (ys * w).sum()
+        for k, x in enumerate(extras):
+            loss = loss + (x * (0.3 + 0.1 * k + 0.05 * torch.arange(x.numel(), dtype=x.dtype).reshape(x.shape))).sum()
+        g = torch.autograd.grad(loss, ([y0] if y0_grad else []) + list(sde.parameters()), allow_unused=True)
         out.append(torch.cat([x.reshape(-1) for x in g]))
     rel = float(((out[0] - out[1]).abs() / out[1].abs().clamp_min(1e-12)).max())
     print('replay C10: max relative difference adjoint vs backprop', rel)
